@@ -1004,6 +1004,75 @@ theorem info_url_trailer_real (body : Bytes) (t : Sym.SymbolFile) (u : Url) (hu 
   · rw [finish_setUrl ps st' hfc u, hfin]
     rfl
 
+/-! ### the hypothesis "every line of the entry is short" from its parts -/
+
+/-- a newline-free stretch of `x ++ "\n" ++ y` lies inside `x` or inside `y` -/
+theorem seg_split {a seg b x y : Bytes} (h : a ++ seg ++ b = x ++ Stream.NL :: y) (hn : Stream.NL ∉ seg) :
+    (∃ c, x = a ++ seg ++ c) ∨ (∃ d, y = d ++ seg ++ b) := by
+  rcases List.append_eq_append_iff.mp h with ⟨c, h1, h2⟩ | ⟨c, h1, h2⟩
+  · -- x = (a ++ seg) ++ c
+    exact Or.inl ⟨c, h1⟩
+  · -- a ++ seg = x ++ c,  NL :: y = c ++ b
+    cases c with
+    | nil => exact Or.inl ⟨[], by simpa using h1.symm⟩
+    | cons c0 c' =>
+      have hc0 : c0 = Stream.NL := by simp at h2; exact h2.1.symm
+      have hy : y = c' ++ b := by simp at h2; exact h2.2
+      subst hc0
+      -- a ++ seg = (x ++ [NL]) ++ c'
+      have h1' : a ++ seg = (x ++ [Stream.NL]) ++ c' := by simpa using h1
+      rcases List.append_eq_append_iff.mp h1' with ⟨d, g1, g2⟩ | ⟨d, g1, g2⟩
+      · -- x ++ [NL] = a ++ d, seg = d ++ c'
+        cases hd : d.getLast? with
+        | none =>
+          have : d = [] := List.getLast?_eq_none_iff.mp hd
+          subst this
+          right
+          refine ⟨[], ?_⟩
+          simp at g2
+          simp [hy, g2]
+        | some z =>
+          exfalso
+          obtain ⟨d0, hd0⟩ := List.getLast?_eq_some_iff.mp hd
+          -- the last byte of d is the NL
+          have : (x ++ [Stream.NL]).getLast? = (a ++ d).getLast? := by rw [g1]
+          rw [hd0] at this
+          simp at this
+          subst this
+          apply hn
+          rw [g2, hd0]
+          simp
+      · -- a = x ++ [NL] ++ d, c' = d ++ seg
+        right
+        exact ⟨d, by rw [hy, g2]⟩
+
+theorem shortLines_join {half : Nat} {x y : Bytes} (hx : ShortLines half x) (hy : ShortLines half y) :
+    ShortLines half (x ++ Stream.NL :: y) := by
+  intro a seg b he hn
+  rcases seg_split he.symm hn with ⟨c, h⟩ | ⟨d, h⟩
+  · exact hx a seg c h hn
+  · exact hy d seg b h hn
+
+theorem shortLines_short {half : Nat} {y : Bytes} (h : y.length < half) : ShortLines half y := by
+  intro a seg b he _
+  have : y.length = a.length + seg.length + b.length := by rw [he]; simp only [List.length_append]
+  omega
+
+/-- the hypothesis of `cached_equals_original_real` from its parts: a body with short lines that ends
+    in a line feed, and a URL shorter than 80 KiB − 10 -/
+theorem shortLines_entry (body : Bytes) (u : Url) (hb : shortLines body) (hnl : EndsNl body)
+    (hlen : u.length + 10 < MAX_BUFFER_CAPACITY / 2) : shortLines (body ++ trailer u) := by
+  obtain ⟨pre, rfl⟩ := hnl
+  have hpre : ShortLines (MAX_BUFFER_CAPACITY / 2) pre := ShortLines.prefix (b := [10]) hb
+  have e : pre ++ [10] ++ trailer u = pre ++ Stream.NL :: trailer u := by simp [Stream.NL]
+  show ShortLines (MAX_BUFFER_CAPACITY / 2) (pre ++ [10] ++ trailer u)
+  rw [e]
+  apply shortLines_join hpre
+  apply shortLines_short
+  simp [trailer, infoUrlTag]
+  omega
+
+
 /-- **the three laws hold for the real parser model** — no assumption left about the parser -/
 theorem laws : ParserLaws model :=
   { callback_prefix := callback_prefix_real
